@@ -95,7 +95,8 @@ class HeaderBlock:
             self.index[k] = len(self.expected)
             self.expected.append([name, full, False])
 
-    def add_random(self, n, allow_fold=True, allow_repeat=True):
+    def add_random(self, n, allow_fold=True, allow_repeat=True, fold_colon=None):
+        """fold_colon: None = whatever gen_value gives; False = continuation lines never contain ':'; True = half of them do (URL, host:port, time)."""
         r = self.r
         used = self.used
         used.update(self.index)
@@ -113,6 +114,10 @@ class HeaderBlock:
             fold = None
             if allow_fold and r.chance(0.15):
                 fold = [(lws(r), gen_value(r)) for _ in range(r.randint(1, 2))]
+                if fold_colon is False:
+                    fold = [(l, t.replace(':', ';')) for l, t in fold]
+                elif fold_colon and r.chance(0.5):
+                    fold = [(l, r.pick(['http://mirror.example:8080/a', 'at 12:30:05', 'h:443', 'a: b', ':x', 'x:']) if k == 0 else t) for k, (l, t) in enumerate(fold)]
             self.add(nm, gen_value(r), ows_before=r.pick([' ', ' ', '', '  ', '\t']), ows_after=r.pick(['', '', ' ', '\t']), fold=fold)
 
     def wire(self, eol=b'\r\n'):
@@ -355,7 +360,8 @@ def gen_response(r, idx, nonce, req_truth, feats, opts, last):
     if r.chance(0.1):
         reason = r.text(VALUE_CHARS, 1, 6) + ' ' + r.text(VALUE_CHARS, 1, 6)
     hb = HeaderBlock(r, feats)
-    hb.add_random(r.randint(0, 2), allow_fold=opts.get('res_fold', False), allow_repeat=opts.get('repeat', True))
+    hb.add_random(r.randint(0, 2), allow_fold=opts.get('res_fold', False), allow_repeat=opts.get('repeat', True),
+                  fold_colon=((version != 'HTTP/1.1') if opts.get('res_fold') == 'model' else None))
     hb.add('X-Id', '%d-%s' % (idx, nonce))
     body = b''
     framing = 'none'
@@ -383,7 +389,8 @@ def gen_response(r, idx, nonce, req_truth, feats, opts, last):
             hb.add('Content-Length', str(len(body)))
         if r.chance(0.5):
             hb.add('Content-Type', r.pick(['text/html', 'text/plain; charset=x', 'application/octet-stream']))
-    hb.add_random(r.randint(0, 2), allow_fold=opts.get('res_fold', False), allow_repeat=opts.get('repeat', True))
+    hb.add_random(r.randint(0, 2), allow_fold=opts.get('res_fold', False), allow_repeat=opts.get('repeat', True),
+                  fold_colon=((version != 'HTTP/1.1') if opts.get('res_fold') == 'model' else None))
     wire = ('%s %d %s\r\n' % (version, status, reason)).encode('latin-1') + hb.wire() + b'\r\n'
     msg_len = 0
     if framing == 'cl':
